@@ -7,7 +7,7 @@ Require PonyV.Model.C07Corr.
 Require PonyV.Model.C07Float PonyV.Proofs.C07Float PonyV.Proofs.C07FloatSweep.
 
 (* SQLite date attributes: date(999, 12, 31) is written as '999-12-31' (strftime does not pad the year) and read back as that string *)
-Theorem C07_date_below_1000_refuted :
+Theorem C07_date_below_1000_refuted : date_text_pads_year = false ->
   valid_date (mk_date 999 12 31) /\ reload_date (mk_date 999 12 31) = RStr [57; 57; 57; 45; 49; 50; 45; 51; 49].
 Proof. exact date_below_1000_refuted. Qed.
 Print Assumptions C07_date_below_1000_refuted.
@@ -28,4 +28,4 @@ Theorem C07_timedelta_float_precision_refuted_small : PonyV.Model.C07Float.exact
 Proof. exact PonyV.Proofs.C07Float.td_float_precision_refuted_small. Qed.
 Print Assumptions C07_timedelta_float_precision_refuted_small.
 
-Definition C07_flags : bool := Eval vm_compute in time_reloads_as_str.
+Definition C07_flags : bool * bool := Eval vm_compute in (time_reloads_as_str, date_text_pads_year).
